@@ -46,6 +46,13 @@ deriving Repr, DecidableEq
 /-- `sizeof(env->ev_tz.t_buf)`. -/
 def TZ_BUF : Nat := 256
 
+/-- `env->ev_tz.t_state` as `readenv` sets it: `TZ_STATE_LOCAL` (0) when TZ is unset, `TZ_STATE_UTC` (1) when it is empty,
+`TZ_STATE_SET` (2) otherwise. -/
+def tzState : Option Bytes → Nat
+  | none => 0
+  | some [] => 1
+  | some (_ :: _) => 2
+
 /-- Where the home directory comes from: `getenv("HOME")`, or the password entry when that is unset or empty. -/
 def homeSource (raw : RawEnv) : Option Bytes :=
   match raw.home with
